@@ -51,11 +51,13 @@ let eval old toks =
   | ["sqr_eq"; m; e] -> outr ((pick rdpe_sqr_eq rdpe_sqr_old) (rd m e))
   | ["sqrt"; m; e] | ["sqrt_eq"; m; e] -> outr ((pick rdpe_sqrt rdpe_sqrt_old) (rd m e))
   | ["mul"; a; b; c; d] | ["mul_eq"; a; b; c; d] -> outr ((pick rdpe_mul rdpe_mul_old) (rd a b) (rd c d))
-  | ["mul_d"; a; b; d] | ["mul_eq_d"; a; b; d] -> outr ((pick rdpe_mul_d rdpe_mul_d_old) (rd a b) (fl d))
+  (* the *_d variants: new = as repaired by fixes/C12_dpe_{mul,div}_d_mantissa_range.patch, old = the code as it is *)
+  | ["mul_d"; a; b; d] -> outr ((pick rdpe_mul_d_fix rdpe_mul_d) (rd a b) (fl d))
+  | ["mul_eq_d"; a; b; d] -> outr ((pick rdpe_mul_eq_d_fix rdpe_mul_d) (rd a b) (fl d))
   | ["mul_2exp"; a; b; i] | ["mul_eq_2exp"; a; b; i] -> outr ((pick rdpe_mul_2exp rdpe_mul_2exp_old) (rd a b) (z_of_dec i))
   | ["div_2exp"; a; b; i] | ["div_eq_2exp"; a; b; i] -> outr ((pick rdpe_div_2exp rdpe_div_2exp_old) (rd a b) (z_of_dec i))
   | ["div"; a; b; c; d] | ["div_eq"; a; b; c; d] -> outr ((pick rdpe_div rdpe_div_old) (rd a b) (rd c d))
-  | ["div_d"; a; b; d] | ["div_eq_d"; a; b; d] -> outr (rdpe_div_d (rd a b) (fl d))
+  | ["div_d"; a; b; d] | ["div_eq_d"; a; b; d] -> outr ((pick rdpe_div_d_fix rdpe_div_d) (rd a b) (fl d))
   | ["add"; a; b; c; d] ->
       let x = rd a b and y = rd c d in
       if old && rdpe_add_old_out_of_model x y then "OOM" else outr ((pick rdpe_add rdpe_add_old) x y)
@@ -96,8 +98,8 @@ let eval old toks =
   | ["cdiv_e"; a; b; c; d; m; e] -> outc (cdpe_div_e (cd a b c d) (rd m e))
   | ["cmul_2exp"; a; b; c; d; i] | ["cmul_eq_2exp"; a; b; c; d; i] -> outc (cdpe_mul_2exp (cd a b c d) (z_of_dec i))
   | ["cdiv_2exp"; a; b; c; d; i] | ["cdiv_eq_2exp"; a; b; c; d; i] -> outc (cdpe_div_2exp (cd a b c d) (z_of_dec i))
-  | ["cmul_d"; a; b; c; d; x] -> outc (cdpe_mul_d (cd a b c d) (fl x))
-  | ["cdiv_d"; a; b; c; d; x] -> outc (cdpe_div_d (cd a b c d) (fl x))
+  | ["cmul_d"; a; b; c; d; x] -> outc ((pick cdpe_mul_d_fix cdpe_mul_d) (cd a b c d) (fl x))
+  | ["cdiv_d"; a; b; c; d; x] -> outc ((pick cdpe_div_d_fix cdpe_div_d) (cd a b c d) (fl x))
   | ["cpow_si"; a; b; c; d; i] | ["cpow_eq_si"; a; b; c; d; i] ->
       if old && i = "-9223372036854775808" then "OOM"
       else outc ((pick cdpe_pow_si cdpe_pow_si_old) (cd a b c d) (z_of_dec i))
@@ -128,9 +130,9 @@ let eval old toks =
   | ["cdiv_eq"; a; b; c; d; e; f; g; h] -> outc ((pick cdpe_div_eq cdpe_div_eq_old) (cd a b c d) (cd e f g h))
   | ["cmul_eq_e"; a; b; c; d; m; e] -> outc (cdpe_mul_e (cd a b c d) (rd m e))
   | ["cdiv_eq_e"; a; b; c; d; m; e] -> outc (cdpe_div_e (cd a b c d) (rd m e))
-  | ["cmul_eq_d"; a; b; c; d; x] -> outc (cdpe_mul_d (cd a b c d) (fl x))
-  | ["cdiv_eq_d"; a; b; c; d; x] -> outc (cdpe_div_d (cd a b c d) (fl x))
-  | ["cmul_x"; a; b; c; d; x; y] | ["cmul_eq_x"; a; b; c; d; x; y] -> outc (cdpe_mul_x (cd a b c d) (fl x) (fl y))
+  | ["cmul_eq_d"; a; b; c; d; x] -> outc ((pick cdpe_mul_d_fix cdpe_mul_d) (cd a b c d) (fl x))
+  | ["cdiv_eq_d"; a; b; c; d; x] -> outc ((pick cdpe_div_d_fix cdpe_div_d) (cd a b c d) (fl x))
+  | ["cmul_x"; a; b; c; d; x; y] | ["cmul_eq_x"; a; b; c; d; x; y] -> outc ((pick cdpe_mul_x_fix cdpe_mul_x) (cd a b c d) (fl x) (fl y))
   | ["ceq_zero"; a; b; c; d] -> outb (cdpe_eq_zero (cd a b c d))
   | ["ceq"; a; b; c; d; e; f; g; h] -> outb (cdpe_eq (cd a b c d) (cd e f g h))
   | ["cne"; a; b; c; d; e; f; g; h] -> outb (cdpe_ne (cd a b c d) (cd e f g h))
